@@ -62,32 +62,36 @@ func setBatchSize(c *chain.Chain, bs int) {
 	}
 }
 
-// verdict codes shared with Corr/SigAlg.v: 0 accept, 1 reject, 2 panic
-func aggDirect(w *world, items []aggItem, bs int) (code int) {
+// verdict codes shared with Corr/SigAlg.v: 0 accept, 1 reject, 2 panic.
+// code: Verify's own answer (ok && err == nil); callerCode: what VerifyTickets / ValidateTransactions
+// make of it (they look at err only and ignore the bool).
+func aggDirect(w *world, items []aggItem, bs int) (code, callerCode int) {
 	pn := safely(func() {
 		agg := encryption.GetAggregateSignatureScheme(encryption.SignatureSchemeBls0chain, len(items), bs)
 		for i, it := range items {
 			ss, err := w.verifier(it.Key)
 			if err != nil {
-				code = 1
+				code, callerCode = 1, 1
 				return
 			}
 			if err := agg.Aggregate(ss, i, w.sigHex(it.Sig), w.msg(it.Msg)); err != nil {
-				code = 1
+				code, callerCode = 1, 1
 				return
 			}
 		}
 		ok, err := agg.Verify()
+		code, callerCode = 1, 1
 		if ok && err == nil {
 			code = 0
-		} else {
-			code = 1
+		}
+		if err == nil {
+			callerCode = 0
 		}
 	})
 	if pn != "" {
-		return 2
+		return 2, 2
 	}
-	return code
+	return code, callerCode
 }
 
 func individual(w *world, items []aggItem) []bool {
@@ -236,7 +240,8 @@ func dim(items []aggItem) int {
 
 func genAgg(in *c32Input, r *vh.Rand) {
 	in.NKeys = 4
-	patterns := []string{"none", "none", "single", "foreign-key", "cancel2", "cancel2", "cancel3", "swap", "rogue", "dup-item", "wrong-msg"}
+	patterns := []string{"none", "none", "single", "foreign-key", "cancel2", "cancel2", "cancel3", "swap", "rogue", "dup-item", "wrong-msg",
+		"zero-neg-sum", "zero-neg-sum", "zero-arbitrary", "zero-single", "off-by-point"}
 	in.Pattern = patterns[r.Intn(len(patterns))]
 	n := r.Range(1, 9)
 	sameMsg := r.Chance(1, 3)
@@ -246,7 +251,10 @@ func genAgg(in *c32Input, r *vh.Rand) {
 	if n < 3 && (in.Pattern == "cancel3") {
 		n = 3
 	}
-	if n < 2 && (in.Pattern == "cancel2" || in.Pattern == "swap" || in.Pattern == "rogue") {
+	if in.Pattern == "zero-single" {
+		n = 1
+	}
+	if n < 2 && (in.Pattern == "cancel2" || in.Pattern == "swap" || in.Pattern == "rogue" || in.Pattern == "zero-neg-sum" || in.Pattern == "zero-arbitrary") {
 		n = 2
 	}
 	if sameMsg && n > in.NKeys {
@@ -297,6 +305,43 @@ func genAgg(in *c32Input, r *vh.Rand) {
 		in.Items = in.Items[:2]
 	case "dup-item":
 		in.Items = append(in.Items, in.Items[i])
+	case "zero-neg-sum":
+		// one forged signature = minus the sum of all others: the aggregate is the identity of G1
+		var neg spoint
+		for x, it := range in.Items {
+			if x == i {
+				continue
+			}
+			for _, t := range it.Sig {
+				var ns sscalar
+				for _, st := range t.S {
+					ns = append(ns, sterm{-st.C, st.K})
+				}
+				neg = append(neg, pterm{ns, t.P})
+			}
+		}
+		in.Items[i].Sig = neg
+	case "zero-arbitrary":
+		// nobody signed: arbitrary points that sum to the identity
+		var neg spoint
+		for x := range in.Items {
+			if x == i {
+				continue
+			}
+			t := d(c + int64(x))
+			in.Items[x].Sig = spoint{t}
+			neg = append(neg, pterm{sscalar{{-(c + int64(x)), -1}}, t.P})
+		}
+		in.Items[i].Sig = neg
+	case "zero-single":
+		in.Items[0].Sig = spoint{} // the identity itself
+	case "off-by-point":
+		// errors that do NOT cancel: sigma_i + d, sigma_j - 2d
+		dd := d(c)
+		in.Items[i].Sig = append(in.Items[i].Sig, dd)
+		if n >= 2 {
+			in.Items[j].Sig = append(in.Items[j].Sig, pterm{sscalar{{-2 * c, -1}}, dd.P})
+		}
 	}
 	n = len(in.Items)
 	in.BS = []int{1, 2, 3, 5, n, n + 3, 64}[r.Intn(7)]
@@ -307,7 +352,8 @@ func runC32(o vh.Opts) {
 	rep := vh.NewReport("hash", "C32", o)
 	rep.Rule = "1-10 signatures over 4 keys, distinct messages (transaction batches) or one message (tickets), batch sizes 1,2,3,5,n,n+3,64; " +
 		"corruption patterns: none, one corrupted, foreign key, wrong message, two and three cancelling perturbations, swapped signatures, rogue key, " +
-		"repeated item; each run on the real aggregate scheme and, where the shape allows, on chain.VerifyTickets and miner.ValidateTransactions; " +
+		"repeated item, non-cancelling pair, signatures summing to the identity (one = minus the sum of the others; arbitrary points; the identity alone); " +
+		"Verify judged both by its bool and by err only (what the callers look at); each run on the real aggregate scheme and, where the shape allows, on chain.VerifyTickets and miner.ValidateTransactions; " +
 		"individual Verify for every item. Non-trivial = at least two items and at least one corrupted signature or a batch split (batch size < n); distinct by the symbolic item list"
 	cf := &vh.CasesFile{Imports: []string{"Base.Corr", "Model.SigAlg", "Corr.SigAlg"}, CaseType: "sc_case", CheckFn: "sc_check"}
 	addCase := func(term string, in interface{}) {
@@ -346,10 +392,21 @@ func runC32(o vh.Opts) {
 			}
 		}
 		n := dim(in.Items)
-		code := aggDirect(w, in.Items, in.BS)
+		code, callerCode := aggDirect(w, in.Items, in.BS)
 		judge("direct", code)
+		judge("direct-err-only", callerCode)
+		if code != callerCode {
+			if record {
+				rep.Count("verify-bool-and-err-disagree")
+			}
+			if fail == "" && code == 1 && callerCode == 0 {
+				// (false, nil): the callers, which look at err only, take a rejected batch for verified
+				fail = "C32:verify-false-without-error"
+			}
+		}
 		if toCoq {
 			addCase(in.coq(n, in.BS, indiv, code), in)
+			addCase(in.coq(n, in.BS, indiv, callerCode), in)
 		}
 		if tc, ran := aggTickets(w, in.Items); ran {
 			judge("tickets", tc)
